@@ -21,7 +21,7 @@
    Modelling assumptions (not hypotheses of the theorems, see notes/K.md): the world does not change
    during a run (no write between the stat and the read of one call); T is a function of the file
    content only; a hasher with a transform is only asked hash_transformed, one without only
-   hash_file (group.rs); read failures are call flags (c_fail) and `nofail` restricts the
+   hash_file (group.rs); I/O failures are a field of the call (c_io) and `nofail` restricts the
    comparison to calls whose read succeeds (a cache hit answers without reading).
 
    Found while modelling (confirmed on the real binary, see notes/K.md): the property as worded fails in
